@@ -154,7 +154,7 @@ RouteFamily(route) ==
     [] route \in {"monoclinic_rad", "monoclinic_deg", "unique_monoclinic"} -> "monoclinic"
     \* respec_*: an existing, already used cell re-specified in place (set_vectors / set_lengths_and_angles)
     [] route \in {"vectors", "params_rad", "params_deg", "triclinic_rad", "triclinic_deg", "unique_triclinic",
-                  "respec_vectors", "respec_params"} -> "triclinic"
+                  "respec_vectors", "respec_params", "params_rad_np", "params_deg_np"} -> "triclinic"
     [] OTHER -> "unknown"
 (* routes that go through set_lengths_and_angles (lower triangular embedding) *)
 ParamsRoute(route) == route \notin {"vectors", "respec_vectors", "cubic", "orthorhombic", "orthorhombic_deg", "unique_cubic", "unique_orthorhombic"}
